@@ -26,6 +26,9 @@ DOM = """(define (domain v14)
 (:action add-p :parameters (?x - t1) :precondition (and) :effect (and (p ?x)))
 (:action add-q :parameters (?x - t1 ?y - t1) :precondition (and) :effect (and (q ?x ?y)))
 (:action add-r :parameters () :precondition (and) :effect (and (r)))
+(:action del-p :parameters (?x - t1) :precondition (and) :effect (and (not (p ?x))))
+(:action del-q :parameters (?x - t1 ?y - t1) :precondition (and) :effect (and (not (q ?x ?y))))
+(:action del-r :parameters () :precondition (and) :effect (and (not (r))))
 (:action set-f :parameters () :precondition (and) :effect (and (assign (f) (- (f) 1))))
 (:action set-g :parameters (?x - t1) :precondition (and) :effect (and (increase (g ?x) 0.5)))
 (:action set-h :parameters (?x - t1 ?y - t1) :precondition (and) :effect (and (decrease (h ?x ?y) 2)))
@@ -39,7 +42,7 @@ FL_T = FL_Q + [("g", "a")]
 VALUES = [None, Fraction(0), Fraction(3, 2), Fraction(-2)]
 RULE = ("universe: quick 4 atoms x 2 fluents (each absent / 0 / 1.5 / -2) = 256 states, thorough 5 atoms x 3 fluents = 2048; "
         "routes: problem parser (2 init orders), TrajectoryParser.parse_state, copy, copy of copy, successor by one action "
-        "from a neighbouring state (add-fact or numeric update); every ordered pair of states x every pair of routes "
+        "from a neighbouring state (add-fact or numeric update; delete-fact, which can leave an empty fact group); every ordered pair of states x every pair of routes "
         "compared with ==; every route object serialized and re-read; every copy mutated both ways. one case = one "
         "left-hand state. non-trivial = a pair of distinct states")
 ASSUMPTIONS = ["state identity = set of ground facts + map ground fluent -> value; the ':init'/':state' tag is not part of it",
@@ -117,6 +120,14 @@ def build(st: RefState):
         succ = guard(lambda: operator(D(), call, list(k[1:]), pr.objects).apply(create_initial_state(pr)))
     if succ is not None:
         out["successor"] = succ
+    # successor by a delete: the neighbour has one more fact (so a fact group may end up empty, not absent)
+    extra = next((a for a in ATOMS_T if a not in st.atoms), None)
+    if extra is not None:
+        nb = RefState(st.atoms | {extra}, st.fluents)
+        call = {"p": "del-p", "q": "del-q", "r": "del-r"}[extra[0]]
+        pr = parse_problem(ptext(nb), D())
+        out["successor-by-delete"] = guard(
+            lambda: operator(D(), call, list(extra[1:]), pr.objects).apply(create_initial_state(pr)))
     return out
 
 
